@@ -779,6 +779,16 @@ impl UdpSink {
         let port = sock.local_addr().unwrap().port();
         UdpSink { sock, port }
     }
+    pub fn on_port(port: u16) -> Option<Self> {
+        let sock = UdpSocket::bind(("127.0.0.1", port)).ok()?;
+        unsafe {
+            use std::os::fd::AsRawFd;
+            let sz: libc::c_int = 4 * 1024 * 1024;
+            libc::setsockopt(sock.as_raw_fd(), libc::SOL_SOCKET, libc::SO_RCVBUF, &sz as *const _ as *const libc::c_void, std::mem::size_of::<libc::c_int>() as u32);
+        }
+        sock.set_read_timeout(Some(Duration::from_secs(10))).ok()?;
+        Some(UdpSink { sock, port })
+    }
     pub fn drops(&self) -> u64 {
         // /proc/net/udp: last column = drops, local_address column = hex ip:port
         let want = format!(":{:04X}", self.port);
@@ -847,13 +857,65 @@ pub fn run_jaeger(udp: &UdpSink, batch: &[Rec], prop: &str) -> Outcome {
 /// `prior`: batches reported through the same reporter object before the batch that is checked
 /// (a reporter lives as long as the process and sees every batch of the collector)
 pub fn run_jaeger_seq(udp: &UdpSink, prior: &[Vec<Rec>], batch: &[Rec], prop: &str) -> Outcome {
+    run_jaeger_from(udp, None, prior, batch, prop)
+}
+
+/// The agent is not listening when the reporter is created and while the `prior` batches (at
+/// least one small batch) are reported; then it comes up on the same port and the checked batch
+/// is reported: it must arrive completely, whatever happened to the earlier ones.
+pub fn run_jaeger_late_agent(prior: &[Vec<Rec>], batch: &[Rec], prop: &str) -> Outcome {
+    if TIMED_OUT.load(std::sync::atomic::Ordering::SeqCst) {
+        return Outcome::Viols(vec![v("report-did-not-return", "an earlier JaegerReporter::report call of this process did not return within 30 s")]);
+    }
+    let port = {
+        let probe = UdpSocket::bind("127.0.0.1:0").unwrap();
+        probe.local_addr().unwrap().port()
+    };
+    let addr = format!("127.0.0.1:{}", port).parse().unwrap();
+    let mut rep = match fastrace_jaeger::JaegerReporter::new(addr, service()) {
+        Ok(r) => r,
+        Err(e) => return Outcome::Inconclusive(format!("reporter construction failed: {}", e)),
+    };
+    let filler = vec![vec![Rec { trace_hi: 1, trace_lo: 1, span: 1, parent: 0, begin: 1, dur: 1, name: "while-agent-down".into(), props: vec![], events: vec![] }]];
+    let down: &[Vec<Rec>] = if prior.is_empty() { &filler } else { prior };
+    for pb in down {
+        let records: Vec<_> = pb.iter().map(|r| r.to_record()).collect();
+        let (tx, rx) = channel();
+        let h = std::thread::spawn(move || {
+            rep.report(records);
+            let _ = tx.send(());
+            rep
+        });
+        match rx.recv_timeout(Duration::from_secs(30)) {
+            Err(std::sync::mpsc::RecvTimeoutError::Timeout) => {
+                TIMED_OUT.store(true, std::sync::atomic::Ordering::SeqCst);
+                std::mem::forget(h);
+                return Outcome::Viols(vec![v("report-did-not-return", "JaegerReporter::report did not return within 30 s while the agent was not listening".to_string())]);
+            }
+            _ => match h.join() {
+                Ok(r) => rep = r,
+                Err(p) => return Outcome::Viols(vec![v("report-panicked", format!("JaegerReporter::report panicked while the agent was not listening: {}", panic_text(&p)))]),
+            },
+        }
+    }
+    std::thread::sleep(Duration::from_millis(3));
+    let Some(sink) = UdpSink::on_port(port) else {
+        return Outcome::Inconclusive("the port of the late agent was taken meanwhile".into());
+    };
+    run_jaeger_from(&sink, Some(rep), &[], batch, prop)
+}
+
+fn run_jaeger_from(udp: &UdpSink, pre: Option<fastrace_jaeger::JaegerReporter>, prior: &[Vec<Rec>], batch: &[Rec], prop: &str) -> Outcome {
     if TIMED_OUT.load(std::sync::atomic::Ordering::SeqCst) {
         // a previous report() call of this process never returned: its thread is still sending,
         // nothing measured from now on would be meaningful (and shrinking must not wait 30 s per step)
         return Outcome::Viols(vec![v("report-did-not-return", "an earlier JaegerReporter::report call of this process did not return within 30 s")]);
     }
     let addr = format!("127.0.0.1:{}", udp.port).parse().unwrap();
-    let mut rep = fastrace_jaeger::JaegerReporter::new(addr, service()).unwrap();
+    let mut rep = match pre {
+        Some(r) => r,
+        None => fastrace_jaeger::JaegerReporter::new(addr, service()).unwrap(),
+    };
     // earlier batches: the calls must terminate too; their datagrams are drained, not checked
     for (k, pb) in prior.iter().enumerate() {
         let records: Vec<_> = pb.iter().map(|r| r.to_record()).collect();
